@@ -90,6 +90,14 @@ fn alphabet0(b: &Built) -> Vec<Op> {
         a.push(Op::IncVia { pos: 0, liq: 5_000, lower_start: -192, upper_start: -192, v2: true });
         a.push(Op::IncVia { pos: 0, liq: 6_000, lower_start: -192, upper_start: -192, v2: false });
     }
+    if b.w.pool.tick_spacing == 64 && b.name.contains("std") {
+        // the same at the left edge of the tick range, where the only valid array start below the lowest tick is the aligned one
+        // (-444928): an array at -444864 overlaps it and would hold the lower bound (-443584) of the full-range position 2
+        a.push(Op::InitTaUnaligned { spacings: -6951, dynamic: false });
+        a.push(Op::InitTaUnaligned { spacings: -6951, dynamic: true });
+        a.push(Op::IncVia { pos: 2, liq: 7_000, lower_start: -444864, upper_start: 78 * 5632, v2: true });
+        a.push(Op::IncVia { pos: 2, liq: 8_000, lower_start: -444864, upper_start: 78 * 5632, v2: false });
+    }
     if b.w.pool.tick_spacing == 64 {
         // reposition_liquidity_v2: re-range position 0 (new bounds share tick array 0 with the other positions' bounds) and back
         a.push(Op::Repos { pos: 0, lower: -64, upper: 192, liq: stdworlds::BIG / 2 });
